@@ -1,6 +1,11 @@
-(* drv_vi.ml -- line-protocol driver of the extracted vi motion and register models.
+(* drv_vi.ml -- line-protocol driver of the extracted vi motion, register and operator models.
    mot <rows> <texthex> <cmd>...   cmd = m:<count>:<keycode>[:<charhex>] | g:<n>
-   answer: "<row> <off> <col> <top>" or "fuel" *)
+   answer: "<row> <off> <col> <top>" or "fuel"
+   op <rows> <texthex> <cmd>...    cmd = the two above |
+       o:<reg>:<a1>:<opcode>:<a2>:<keycode or D>:<charhex>:<typedhex>   (opcode = code of d y c < > ~ u U)
+       x:<reg>:<cnt>:<keycode of x X D Y ~>   |  ci:<reg>:<cnt>:<keycode of C s S>:<typedhex>
+       p:<reg>:<cnt>:<0 P | 1 p>  |  j:<cnt>  |  r:<cnt>:<charhex>  |  i:<keycode of i a I A o O>:<typedhex>
+   answer: "<row> <off> <col> <top> <texthex> <reg>..." for the registers "" a b c 1..9 (<texthex>:<ln> or x), or "fuel" *)
 let pr = Printf.printf
 let key_of code arg =
   match Char.chr code with
@@ -10,6 +15,36 @@ let key_of code arg =
   | 'G' -> KG | '+' -> Kplus | '-' -> Kminus | '_' -> Kunder | '%' -> Kpct | '{' -> Klbrace | '}' -> Krbrace
   | 'H' -> KH | 'M' -> KM | 'L' -> KL | ' ' -> Kspace | '\b' -> Kbs
   | _ -> failwith "key"
+let int = int_of_string
+let zi s = z_of_int (int s)
+let okey_of c = match Char.chr c with
+  | 'd' -> Od | 'y' -> Oy | 'c' -> Oc | '<' -> Olt | '>' -> Ogt | '~' -> Otilde | 'u' -> Ogu | 'U' -> OgU
+  | _ -> failwith "okey"
+let ikey_of c = match Char.chr c with
+  | 'i' -> Ii | 'a' -> Ia | 'I' -> II | 'A' -> IA | 'o' -> Io | 'O' -> IO | _ -> failwith "ikey"
+let reg_of s = n_of_int (int s)
+let typed s = chop (bytes_of_hex s)
+let ecmd_of w =
+  match String.split_on_char ':' w with
+  | ["g"; n] -> CGoto (zi n)
+  | ["m"; c; k] -> CMot (zi c, key_of (int k) [])
+  | ["m"; c; k; a] -> CMot (zi c, key_of (int k) (bytes_of_hex a))
+  | ["o"; reg; a1; op; a2; k; a; t] ->
+      let tg = if k = "D" then TDbl else TMot (key_of (int k) (bytes_of_hex a)) in
+      COp (reg_of reg, zi a1, okey_of (int op), zi a2, tg, typed t)
+  | ["x"; reg; c; k] ->
+      (match Char.chr (int k) with
+       | 'x' -> c_x (reg_of reg) (zi c) | 'X' -> c_X (reg_of reg) (zi c) | 'D' -> c_D (reg_of reg) (zi c)
+       | 'Y' -> c_Y (reg_of reg) (zi c) | '~' -> c_tilde (zi c) | _ -> failwith "x")
+  | ["ci"; reg; c; k; t] ->
+      (match Char.chr (int k) with
+       | 'C' -> c_C (reg_of reg) (zi c) (typed t) | 's' -> c_s (reg_of reg) (zi c) (typed t)
+       | 'S' -> c_S (reg_of reg) (zi c) (typed t) | _ -> failwith "ci")
+  | ["p"; reg; c; a] -> CPut (reg_of reg, zi c, a = "1")
+  | ["j"; c] -> CJoin (zi c)
+  | ["r"; c; a] -> CReplace (zi c, bytes_of_hex a)
+  | ["i"; k; t] -> CIns (ikey_of (int k), typed t)
+  | _ -> failwith "ecmd"
 let cmd_of w =
   match String.split_on_char ':' w with
   | ["g"; n] -> Goto (z_of_int (int_of_string n))
@@ -24,8 +59,21 @@ let () =
         (match run_prog b (z_of_int (int_of_string rows)) (List.map cmd_of prog) with
          | Some (_, s) -> pr "%d %d %d %d\n" (int_of_z s.v_row) (int_of_z s.v_off) (int_of_z s.v_col) (int_of_z s.v_top)
          | None -> pr "fuel\n")
+    | "op" :: rows :: text :: prog ->
+        let b = buf_of_bytes (bytes_of_hex text) in
+        (match exec_prog b (z_of_int (int_of_string rows)) (List.map ecmd_of prog) with
+         | Some e ->
+             let s = e.s_vs in
+             pr "%d %d %d %d %s" (int_of_z s.v_row) (int_of_z s.v_off) (int_of_z s.v_col) (int_of_z s.v_top)
+               (hex_of_bytes (List.concat (List.map flat e.s_buf)));
+             List.iter (fun c ->
+               match reg_get e.s_regs (n_of_int c) with
+               | Some (t, ln) -> pr " %s:%d" (hex_of_bytes t) (if ln then 1 else 0)
+               | None -> pr " x") [0; 97; 98; 99; 49; 50; 51; 52; 53; 54; 55; 56; 57];
+             pr "\n"
+         | None -> pr "fuel\n")
     | "regs" :: puts ->
-        (* regs <namehex>:<texthex>:<ln> ...  -> the revealed registers "" a b 1 2 3 4 as <texthex>:<ln> or x *)
+        (* regs <namehex>:<texthex>:<ln> ...  -> the revealed registers "" a b c 1..9 as <texthex>:<ln> or x *)
         let r = List.fold_left (fun r w ->
           match String.split_on_char ':' w with
           | [c; s; ln] ->
@@ -35,6 +83,6 @@ let () =
         List.iter (fun c ->
           match reg_get r (n_of_int c) with
           | Some (s, ln) -> pr "%s:%d " (hex_of_bytes s) (if ln then 1 else 0)
-          | None -> pr "x ") [0; 97; 98; 49; 50; 51; 52];
+          | None -> pr "x ") [0; 97; 98; 99; 49; 50; 51; 52; 53; 54; 55; 56; 57];
         pr "\n"
     | _ -> pr "?\n")
